@@ -4,6 +4,7 @@ package c21
 
 import (
 	"fmt"
+	"strconv"
 	"strings"
 
 	"verifharness/common"
@@ -19,47 +20,115 @@ type gen struct {
 
 func (g *gen) id() int { g.k++; return g.k }
 
-func (g *gen) scalar() val { return val{n: g.r.Range(0, 9)} }
+func (g *gen) scalar() val { return nv(g.r.Range(0, 9)) }
 
 func (g *gen) listVal() val {
-	v := val{list: true}
+	v := lv()
 	for n := g.r.Range(0, 3); n > 0; n-- {
-		v.xs = append(v.xs, g.r.Range(0, 9))
+		v.xs = append(v.xs, g.scalar())
+	}
+	return v
+}
+
+var mapKeys = []string{"a", "b", "c"}
+
+// value: a scalar, a list or a map, nested up to `depth`.
+func (g *gen) value(depth int) val {
+	c := g.r.Intn(10)
+	switch {
+	case depth == 0 || c < 4:
+		if g.r.Chance(1, 6) {
+			return sv(mapKeys[g.r.Intn(3)] + strconv.Itoa(g.r.Range(10, 99)))
+		}
+		return g.scalar()
+	case c < 8:
+		v := lv()
+		for n := g.r.Range(0, 3); n > 0; n-- {
+			v.xs = append(v.xs, g.value(depth-1))
+		}
+		return v
+	}
+	v := val{kind: 'm'}
+	for n := g.r.Range(0, 3); n > 0; n-- {
+		v.mapSet(mapKeys[g.r.Intn(3)], g.value(depth-1))
 	}
 	return v
 }
 
 func (g *gen) decl() varDecl {
-	d := varDecl{kind: "LLLUUEO"[g.r.Intn(7)]}
-	if d.kind != 'E' {
-		d.list = g.r.Chance(1, 3)
+	kind := "LLLUUEO"[g.r.Intn(7)]
+	var init slot
+	shape := g.r.Intn(6) // 0-2 scalar, 3 flat list, 4-5 nested value
+	if kind == 'E' {
+		shape = 0
 	}
-	if (d.kind == 'U' || d.kind == 'E') && g.r.Chance(1, 2) {
+	if (kind == 'U' || kind == 'E') && g.r.Chance(1, 2) {
 		// starts unset
-	} else if d.list {
-		d.init = slot{true, g.listVal()}
-		if len(d.init.v.xs) == 0 {
-			d.init.v.xs = []int{g.r.Range(0, 9)}
+	} else if shape == 3 {
+		init = slot{true, g.listVal()}
+		if len(init.v.xs) == 0 {
+			init.v.xs = []val{g.scalar()}
 		}
+	} else if shape >= 4 {
+		v := g.value(2)
+		if v.kind == 's' {
+			v = lv(g.value(1), g.value(1))
+		}
+		init = slot{true, v}
 	} else {
-		d.init = slot{true, g.scalar()}
+		init = slot{true, g.scalar()}
 	}
-	if d.kind == 'L' || d.kind == 'U' {
+	var mask uint
+	if kind == 'L' || kind == 'U' {
 		switch g.r.Intn(4) {
 		case 0: // never fails
 		case 1: // one failing call among the first six
-			d.mask = 1 << uint(g.r.Intn(6))
+			mask = 1 << uint(g.r.Intn(6))
 		case 2:
-			d.mask = uint(g.r.Intn(256))
+			mask = uint(g.r.Intn(256))
 		case 3:
-			d.mask = uint(g.r.Intn(1<<12)) & uint(g.r.Intn(1<<12))
+			mask = uint(g.r.Intn(1<<12)) & uint(g.r.Intn(1<<12))
 		}
 	}
-	return d
+	return declFor(kind, init, mask)
+}
+
+// path: an index path into v that mostly exists (so that multi-level and map
+// element assignments usually succeed), sometimes leaving it.
+func (g *gen) path(v val) []string {
+	var idx []string
+	for {
+		switch {
+		case g.r.Chance(1, 8) || v.kind == 's' && len(idx) > 0:
+			idx = append(idx, []string{"0", "1", "5", "-1", "a", "zz"}[g.r.Intn(6)])
+			return idx
+		case v.kind == 'l' && len(v.xs) > 0:
+			k := g.r.Intn(len(v.xs))
+			if g.r.Chance(1, 5) {
+				idx = append(idx, strconv.Itoa(k-len(v.xs)))
+			} else {
+				idx = append(idx, strconv.Itoa(k))
+			}
+			v = v.xs[k]
+		case v.kind == 'm' && len(v.keys) > 0 && g.r.Chance(3, 4):
+			k := g.r.Intn(len(v.keys))
+			idx = append(idx, v.keys[k])
+			v = v.vs[k]
+		case v.kind == 'm':
+			idx = append(idx, mapKeys[g.r.Intn(3)])
+			return idx
+		default:
+			idx = append(idx, strconv.Itoa(g.r.Range(0, 3)))
+			return idx
+		}
+		if len(idx) >= 3 || g.r.Chance(1, 2) {
+			return idx
+		}
+	}
 }
 
 func (g *gen) group() group {
-	var gr group
+	gr := group{rest: -1}
 	n := 1
 	if g.r.Chance(1, 4) {
 		n = g.r.Range(2, 3)
@@ -67,20 +136,53 @@ func (g *gen) group() group {
 	for i := 0; i < n; i++ {
 		x := g.r.Intn(len(g.decls))
 		d := g.decls[x]
-		if d.list && g.r.Chance(1, 2) {
-			gr.lvs = append(gr.lvs, lval{x: x, elem: true, i: g.r.Range(0, 3)})
-			gr.vals = append(gr.vals, g.scalar())
-		} else {
-			gr.lvs = append(gr.lvs, lval{x: x})
-			if d.list {
-				gr.vals = append(gr.vals, g.listVal())
+		isEnv := d.kind == 'E'
+		container := d.init.set && d.init.v.kind != 's'
+		switch {
+		case !isEnv && (container && g.r.Chance(1, 2) || g.r.Chance(1, 12)):
+			cur := sv("")
+			if d.init.set {
+				cur = d.init.v
+			}
+			gr.lvs = append(gr.lvs, lval{x: x, idx: g.path(cur)})
+			if g.r.Chance(1, 4) {
+				gr.vals = append(gr.vals, g.value(1))
 			} else {
 				gr.vals = append(gr.vals, g.scalar())
 			}
+		default:
+			gr.lvs = append(gr.lvs, lval{x: x})
+			switch {
+			case isEnv || !container && g.r.Chance(5, 6):
+				gr.vals = append(gr.vals, g.scalar())
+			case d.init.set && d.init.v.flat():
+				gr.vals = append(gr.vals, g.listVal())
+			default:
+				gr.vals = append(gr.vals, g.value(2))
+			}
+		}
+	}
+	if g.r.Chance(1, 6) { // a rest lvalue, with 0–3 values for it
+		var cand []int
+		for i, l := range gr.lvs {
+			if g.decls[l.x].kind != 'E' {
+				cand = append(cand, i)
+			}
+		}
+		if len(cand) > 0 {
+			gr.rest = cand[g.r.Intn(len(cand))]
+			extra := g.r.Range(-1, 2)
+			var vs []val
+			vs = append(vs, gr.vals[:gr.rest]...)
+			for j := 0; j < 1+extra; j++ {
+				vs = append(vs, g.scalar())
+			}
+			vs = append(vs, gr.vals[gr.rest+1:]...)
+			gr.vals = vs
 		}
 	}
 	if g.r.Chance(1, 25) { // arity mismatch
-		if g.r.Bool() {
+		if g.r.Bool() && len(gr.vals) > 0 {
 			gr.vals = gr.vals[:len(gr.vals)-1]
 		} else {
 			gr.vals = append(gr.vals, g.scalar())
@@ -127,11 +229,17 @@ func (g *gen) block(depth int, budget *int) []*stmt {
 			s.op = 'C'
 		case c < 81:
 			s.op = 'R'
-		case c < 88 && nest:
+		case c < 87 && nest:
 			s.op, s.n = 'K', g.r.Intn(2)
 			s.body = g.block(depth+1, budget)
-		case c < 94 && nest:
+		case c < 91 && nest:
 			s.op, s.n = 'L', g.r.Range(0, 3)
+			s.body = g.block(depth+1, budget)
+		case c < 93 && nest:
+			s.op, s.n = 'H', g.r.Range(0, 3)
+			s.body = g.block(depth+1, budget)
+		case c < 96 && nest:
+			s.op, s.n = 'I', g.r.Intn(4)
 			s.body = g.block(depth+1, budget)
 		case nest:
 			s.op = 'T'
@@ -161,8 +269,9 @@ func run(c *common.Ctx) error {
 	feat := map[string]int{}
 	c.Extra["features"] = feat
 	s := &common.Std{
-		Rule: "random programs over 1–4 variables (logged/failing, unsettable, real E:, ordinary) whose function bodies nest " +
-			"tmp/with/defer/call/for/try up to depth 5 and leave by every exit path; Set/Unset failures scheduled per call index; " +
+		Rule: "random programs over 1–4 variables (logged/failing, unsettable, real E:, ordinary; strings, nested lists, maps) whose function bodies nest " +
+			"tmp/with/defer/call/for/while/if/try up to depth 5 and leave by every exit path; lvalues are variables, multi-level elements of lists/maps/strings, " +
+			"rest lvalues; Set/Unset failures scheduled per call index; plus `acc` ops: the Lean acceptor against the Go oracle on real and damaged logs; " +
 			"non-trivial = at least one tmp, with or defer executed; distinct by op line",
 		Gen: func(c *common.Ctx, emit func(...string)) {
 			g := &gen{r: c.Rand}
@@ -175,10 +284,25 @@ func run(c *common.Ctx) error {
 				case i%3 == 2:
 					size = 30
 				}
-				emit(g.program(size).fields()...)
+				p := g.program(size)
+				emit(p.fields()...)
+				if i%5 == 0 {
+					// the two acceptors (Go oracle, Lean Spec.accepts) on the real log and on a damaged one
+					f := p.fields()
+					out := execute(p).line()
+					emit("acc", f[1], f[2], out)
+					if bad := damage(c.Rand, out); bad != out {
+						emit("acc", f[1], f[2], bad)
+					}
+				}
 			}
 		},
-		Impl: impl,
+		Impl: func(x any, f []string) string {
+			if len(f) == 4 && f[0] == "acc" {
+				return implAcc(f)
+			}
+			return impl(x, f)
+		},
 		Oracle: func(_ any, f []string, out string) (string, string) {
 			return oracle(f, out, feat)
 		},
@@ -189,6 +313,9 @@ func run(c *common.Ctx) error {
 
 // tag: how the top-level function ended and whether its clean-up failed.
 func tag(f []string, out string) string {
+	if f[0] == "acc" {
+		return "acc " + out
+	}
 	if out == "bad-op" || out == "PANIC" || out == "TIMEOUT" {
 		return out
 	}
@@ -208,6 +335,75 @@ func tag(f []string, out string) string {
 		}
 	}
 	return t
+}
+
+// implAcc: the Go oracle's verdict on a given output text.
+func implAcc(f []string) string {
+	if _, err := parseProgram(f[:3]); err != nil {
+		return "bad-op"
+	}
+	cls, _ := oracle([]string{"run", f[1], f[2]}, f[3], map[string]int{})
+	if cls == "" {
+		return "accept"
+	}
+	return "reject"
+}
+
+// damage: one small change of a run's text — drop / double / swap log entries,
+// flip a Set result, change a value, the outcome or the final store.
+func damage(r *common.Rand, out string) string {
+	parts := strings.SplitN(out, "|", 3)
+	if len(parts) != 3 {
+		return out
+	}
+	evs := strings.Fields(parts[2])
+	if parts[2] == "-" {
+		evs = nil
+	}
+	switch c := r.Intn(8); {
+	case c == 0:
+		if parts[0] == "ok" {
+			parts[0] = "fail:1"
+		} else {
+			parts[0] = "ok"
+		}
+	case c == 1:
+		parts[1] += "9"
+	case len(evs) == 0:
+		evs = append(evs, "@0.1")
+	case c == 2:
+		i := r.Intn(len(evs))
+		evs = append(evs[:i:i], evs[i+1:]...)
+	case c == 3:
+		i := r.Intn(len(evs))
+		evs = append(evs[:i+1:i+1], evs[i:]...)
+	case c == 4 && len(evs) > 1:
+		i := r.Intn(len(evs) - 1)
+		evs[i], evs[i+1] = evs[i+1], evs[i]
+	case c == 5:
+		i := r.Intn(len(evs))
+		switch {
+		case strings.HasSuffix(evs[i], "+"):
+			evs[i] = evs[i][:len(evs[i])-1] + "!"
+		case strings.HasSuffix(evs[i], "!"):
+			evs[i] = evs[i][:len(evs[i])-1] + "+"
+		default:
+			evs[i] += "1"
+		}
+	default:
+		// drop the last Set/Unset of the log (a missing restore)
+		for i := len(evs) - 1; i >= 0; i-- {
+			if evs[i][0] == 'S' || evs[i][0] == 'X' {
+				evs = append(evs[:i:i], evs[i+1:]...)
+				break
+			}
+		}
+	}
+	parts[2] = strings.Join(evs, " ")
+	if len(evs) == 0 {
+		parts[2] = "-"
+	}
+	return strings.Join(parts, "|")
 }
 
 var _ = fmt.Sprint
